@@ -1,13 +1,15 @@
 ------------------------------- MODULE Limiter -------------------------------
 (* protocol/rpcprovider/resource_limiter.go - a schedule-level (PlusCal-style) model of
-   ResourceLimiter.Acquire / enqueueRequest / processQueue with both buckets.
+   ResourceLimiter.Acquire / enqueueRequest / processQueue with both buckets, AS THE CODE IS.
 
    Processes (goroutines in the replay harness harness/cmd/limiter):
      caller c  : rl.Acquire(ctx, cu, method, execute)        kinds: heavy_cu | heavy_debug | heavy_batch | normal
      worker w  : the limiter's own processQueue goroutine (heavy bucket)
-     cancel x  : the environment cancels the caller's context (one step, par.can[x] = caller)
-   A caller with to = TRUE has a queue deadline that is already expired when it is enqueued (the
-   30 s timeout is replaced through the verif-only setter); cancellation can happen anywhere.
+     event e   : environment, par.ev[e] = [k, c]: k = "cancel"   the caller's context is cancelled (any time)
+                                                  k = "deadline" the queue deadline of c fires while c is enqueued
+   Queue deadline of a caller (to): "never" | "expired" (already expired when the request is enqueued) |
+   "late" (fires when the environment says so; the hard-coded 30 s are replaced through the verif-only setter).
+   queueCtx is done as soon as the first of cancel / deadline happened (first[c]); its error is that first cause.
 
    pc / wpc are the yield points at which the goroutines are parked: harness-level ("start", and
    "exec" = inside the execute callback) or the build-tagged hooks (hooks/rpcprovider_limiter.patch):
@@ -17,17 +19,18 @@
             "checked"  pq_checked       after the ctx check, before sem.Acquire
             "send"     pq_send          after execution (permit released), before qr.result <- err
    A goroutine is only released from a yield point when the spec says that it will not block in a
-   channel / semaphore operation before its next yield point ("parked before blocking"): a caller
-   in "waiting" moves when a result is buffered or its ctx is done, the worker in "idle" when the
-   queue is non-empty, in "checked" when a permit is free or the ctx is done.  A Go select with
+   channel / semaphore operation before its next yield point ("parked before blocking").  A Go select with
    two ready cases picks one at random: CWait has both outcomes.
 
-   FixWait = TRUE describes the code with fixes/F10_limiter_handoff.patch (atomic
-   waiting -> started | abandoned hand-off on the queued request); FALSE the code as found, where
-   the caller keeps listening to queueCtx.Done() while its request is executing (F10). *)
+   FixF10 = FALSE (default configs) is the code as it is: the caller keeps listening to queueCtx.Done()
+   while its request is executing, so Acquire can return a context error although the request runs
+   (finding F10, open).  ErrMeansNotRun is therefore violated by the design itself; ErrMeansNotRunModF10
+   tolerates exactly that class (the caller returned a context error through the ctx case after the
+   execution of its request had started) and nothing else.  FixF10 = TRUE (Limiter_fixF10.cfg) adds an atomic
+   waiting -> started | abandoned hand-off on the queued request and restores ErrMeansNotRun. *)
 EXTENDS Integers, Sequences, FiniteSets, FiniteSetsExt, TLC, Json
 
-CONSTANTS Scenarios, FixWait, GenHist
+CONSTANTS Scenarios, FixF10, GenHist
 
 VARIABLES par,
           pc,        \* callers: "start" | "exec" (direct execution) | "presend" | "waiting" | "fin"
@@ -35,20 +38,25 @@ VARIABLES par,
           permH, permN,      \* permits in use
           queue,     \* heavy queue: sequence of callers
           canc,      \* caller's parent ctx cancelled
-          fired,     \* cancel events that happened
+          first,     \* what made the caller's (queue) ctx done first: "none" | "cancel" | "deadline"
+          fired,     \* environment events that happened
           exec, done,        \* per caller: executions started / finished
           res,       \* what Acquire returned: "none" | "ok" (its own run's result) | "err"
-          chan,      \* qr.result (buffered 1): "none" | "ok" | "err"
+          why,       \* class of the returned value: "none" | "run" | "rejected" | "canceled" | "deadline_exceeded" | "queue_timeout"
+          exret,     \* executions of the caller's request started when Acquire returned (-1 = not returned)
+          chan,      \* qr.result (buffered 1): "none" | "ok" | "canceled" | "deadline_exceeded"
           st,        \* hand-off state of the queued request: "none" | "waiting" | "started" | "abandoned"
           rejected, queued, timeouts,   \* metrics counters
           hist
 
-vars == <<par, pc, wpc, wcur, permH, permN, queue, canc, fired, exec, done, res, chan, st, rejected, queued, timeouts, hist>>
+vars == <<par, pc, wpc, wcur, permH, permN, queue, canc, first, fired, exec, done, res, why, exret, chan, st,
+          rejected, queued, timeouts, hist>>
 
 Callers == DOMAIN par.cal
-Cancels == DOMAIN par.can
+Events == DOMAIN par.ev
 Heavy(c) == par.cal[c].kind # "normal"          \* selectBucket: high CU, debug_/trace_ prefix, batch (&)
-CtxDone(c) == par.cal[c].to \/ canc[c]          \* queueCtx of an enqueued request is done
+CtxDone(c) == first[c] # "none"                 \* queueCtx of an enqueued request is done
+QErr(c) == IF first[c] = "deadline" THEN "deadline_exceeded" ELSE "canceled"      \* queueCtx.Err()
 Rec(p) == hist' = IF GenHist THEN Append(hist, p) ELSE hist
 
 InitFor(P) ==
@@ -57,13 +65,21 @@ InitFor(P) ==
   /\ wpc = "idle" /\ wcur = "none"
   /\ permH = 0 /\ permN = 0 /\ queue = <<>>
   /\ canc = [c \in DOMAIN P.cal |-> FALSE]
-  /\ fired = [x \in DOMAIN P.can |-> FALSE]
+  /\ first = [c \in DOMAIN P.cal |-> "none"]
+  /\ fired = [x \in DOMAIN P.ev |-> FALSE]
   /\ exec = [c \in DOMAIN P.cal |-> 0] /\ done = [c \in DOMAIN P.cal |-> 0]
-  /\ res = [c \in DOMAIN P.cal |-> "none"] /\ chan = [c \in DOMAIN P.cal |-> "none"]
+  /\ res = [c \in DOMAIN P.cal |-> "none"] /\ why = [c \in DOMAIN P.cal |-> "none"]
+  /\ exret = [c \in DOMAIN P.cal |-> -1]
+  /\ chan = [c \in DOMAIN P.cal |-> "none"]
   /\ st = [c \in DOMAIN P.cal |-> "none"]
   /\ rejected = 0 /\ queued = 0 /\ timeouts = 0
   /\ hist = <<>>
 Init == \E P \in Scenarios : InitFor(P)
+
+\* Acquire returns to the caller
+Ret(c, r, w) == /\ pc' = [pc EXCEPT ![c] = "fin"] /\ res' = [res EXCEPT ![c] = r]
+                /\ why' = [why EXCEPT ![c] = w] /\ exret' = [exret EXCEPT ![c] = exec[c]]
+Stay == UNCHANGED <<res, why, exret>>
 
 -----------------------------------------------------------------------------
 (* caller *)
@@ -75,11 +91,13 @@ CStart(c) ==
      THEN /\ permH' = IF Heavy(c) THEN permH + 1 ELSE permH
           /\ permN' = IF Heavy(c) THEN permN ELSE permN + 1
           /\ exec' = [exec EXCEPT ![c] = @ + 1]
-          /\ pc' = [pc EXCEPT ![c] = "exec"] /\ UNCHANGED <<rejected, res>>
+          /\ pc' = [pc EXCEPT ![c] = "exec"] /\ Stay /\ UNCHANGED <<rejected, first>>
      ELSE IF Heavy(c) /\ par.Q > 0
-     THEN /\ pc' = [pc EXCEPT ![c] = "presend"] /\ UNCHANGED <<permH, permN, exec, rejected, res>>
-     ELSE /\ rejected' = rejected + 1 /\ res' = [res EXCEPT ![c] = "err"]
-          /\ pc' = [pc EXCEPT ![c] = "fin"] /\ UNCHANGED <<permH, permN, exec>>
+     THEN /\ pc' = [pc EXCEPT ![c] = "presend"] /\ Stay              \* queueCtx = WithTimeout(ctx, timeout)
+          /\ first' = IF par.cal[c].to = "expired" /\ first[c] = "none" THEN [first EXCEPT ![c] = "deadline"] ELSE first
+          /\ UNCHANGED <<permH, permN, exec, rejected>>
+     ELSE /\ rejected' = rejected + 1 /\ Ret(c, "err", "rejected")
+          /\ UNCHANGED <<permH, permN, exec, first>>
   /\ UNCHANGED <<wpc, wcur, queue, canc, fired, done, chan, st, queued, timeouts>>
 
 \* direct execution finishes: executeWithSemaphore releases the permit, Acquire returns the result
@@ -88,8 +106,8 @@ CExec(c) ==
   /\ done' = [done EXCEPT ![c] = @ + 1]
   /\ permH' = IF Heavy(c) THEN permH - 1 ELSE permH
   /\ permN' = IF Heavy(c) THEN permN ELSE permN - 1
-  /\ res' = [res EXCEPT ![c] = "ok"] /\ pc' = [pc EXCEPT ![c] = "fin"]
-  /\ UNCHANGED <<wpc, wcur, queue, canc, fired, exec, chan, st, rejected, queued, timeouts>>
+  /\ Ret(c, "ok", "run")
+  /\ UNCHANGED <<wpc, wcur, queue, canc, first, fired, exec, chan, st, rejected, queued, timeouts>>
 
 \* select { case queue <- qr: ... default: queue full }
 CSend(c) ==
@@ -97,32 +115,36 @@ CSend(c) ==
   /\ IF Len(queue) < par.Q
      THEN /\ queue' = Append(queue, c) /\ queued' = queued + 1
           /\ st' = [st EXCEPT ![c] = "waiting"]
-          /\ pc' = [pc EXCEPT ![c] = "waiting"] /\ UNCHANGED <<rejected, res>>
-     ELSE /\ rejected' = rejected + 1 /\ res' = [res EXCEPT ![c] = "err"]
-          /\ pc' = [pc EXCEPT ![c] = "fin"] /\ UNCHANGED <<queue, queued, st>>
-  /\ UNCHANGED <<wpc, wcur, permH, permN, canc, fired, exec, done, chan, timeouts>>
+          /\ pc' = [pc EXCEPT ![c] = "waiting"] /\ Stay /\ UNCHANGED rejected
+     ELSE /\ rejected' = rejected + 1 /\ Ret(c, "err", "rejected") /\ UNCHANGED <<queue, queued, st>>
+  /\ UNCHANGED <<wpc, wcur, permH, permN, canc, first, fired, exec, done, chan, timeouts>>
 
 \* select { case err := <-qr.result: ... case <-queueCtx.Done(): ... }
-TimeoutHit(c) == IF par.cal[c].to /\ ~canc[c] THEN 1 ELSE 0       \* ctx.Err() == nil && DeadlineExceeded
+TimeoutHit(c) == first[c] = "deadline" /\ ~canc[c]                \* ctx.Err() == nil && queueCtx.Err() == DeadlineExceeded
+CtxRet(c) == /\ Ret(c, "err", IF TimeoutHit(c) THEN "queue_timeout" ELSE QErr(c))
+             /\ timeouts' = timeouts + (IF TimeoutHit(c) THEN 1 ELSE 0)
+ResRet(c) == /\ Ret(c, IF chan[c] = "ok" THEN "ok" ELSE "err", IF chan[c] = "ok" THEN "run" ELSE chan[c])
+             /\ UNCHANGED timeouts
 CWait(c) ==
   /\ pc[c] = "waiting"
-  /\ \/ /\ chan[c] # "none"                                       \* result case
-        /\ res' = [res EXCEPT ![c] = chan[c]] /\ UNCHANGED <<st, timeouts>>
-     \/ /\ CtxDone(c) /\ ~FixWait                                 \* ctx case, code as found
-        /\ res' = [res EXCEPT ![c] = "err"] /\ timeouts' = timeouts + TimeoutHit(c) /\ UNCHANGED st
-     \/ /\ CtxDone(c) /\ FixWait /\ st[c] = "waiting"             \* ctx case: abandon the request
-        /\ st' = [st EXCEPT ![c] = "abandoned"]
-        /\ res' = [res EXCEPT ![c] = "err"] /\ timeouts' = timeouts + TimeoutHit(c)
-     \/ /\ CtxDone(c) /\ FixWait /\ st[c] = "started" /\ chan[c] # "none"   \* ctx case, too late: take the result
-        /\ res' = [res EXCEPT ![c] = chan[c]] /\ UNCHANGED <<st, timeouts>>
-  /\ pc' = [pc EXCEPT ![c] = "fin"]
-  /\ UNCHANGED <<wpc, wcur, permH, permN, queue, canc, fired, exec, done, chan, rejected, queued>>
+  /\ \/ /\ chan[c] # "none" /\ ResRet(c) /\ UNCHANGED st             \* result case
+     \/ /\ CtxDone(c) /\ ~FixF10 /\ CtxRet(c) /\ UNCHANGED st         \* ctx case, code as it is
+     \/ /\ CtxDone(c) /\ FixF10 /\ st[c] = "waiting"                  \* ctx case with the hand-off: abandon
+        /\ st' = [st EXCEPT ![c] = "abandoned"] /\ CtxRet(c)
+     \/ /\ CtxDone(c) /\ FixF10 /\ st[c] = "started" /\ chan[c] # "none"   \* too late: take the result
+        /\ ResRet(c) /\ UNCHANGED st
+  /\ UNCHANGED <<wpc, wcur, permH, permN, queue, canc, first, fired, exec, done, chan, rejected, queued>>
 
-\* environment: the caller's context is cancelled
-Cancel(x) ==
-  /\ ~fired[x] /\ pc[par.can[x]] # "fin"
-  /\ fired' = [fired EXCEPT ![x] = TRUE] /\ canc' = [canc EXCEPT ![par.can[x]] = TRUE]
-  /\ UNCHANGED <<pc, wpc, wcur, permH, permN, queue, exec, done, res, chan, st, rejected, queued, timeouts>>
+\* environment
+Event(e) ==
+  LET c == par.ev[e].c  k == par.ev[e].k IN
+  /\ ~fired[e] /\ pc[c] # "fin"
+  /\ k = "deadline" => (par.cal[c].to = "late" /\ pc[c] \in {"presend", "waiting"})
+  /\ fired' = [fired EXCEPT ![e] = TRUE]
+  /\ canc' = IF k = "cancel" THEN [canc EXCEPT ![c] = TRUE] ELSE canc
+  /\ first' = IF first[c] = "none" THEN [first EXCEPT ![c] = k] ELSE first
+  /\ Stay
+  /\ UNCHANGED <<pc, wpc, wcur, permH, permN, queue, exec, done, chan, st, rejected, queued, timeouts>>
 
 -----------------------------------------------------------------------------
 (* worker: for qr := range queue { ctx check; sem.Acquire; [hand-off]; execute; result <- } *)
@@ -130,39 +152,43 @@ WDequeue ==
   /\ wpc = "idle" /\ queue # <<>>
   /\ wcur' = Head(queue) /\ queue' = Tail(queue)
   /\ IF CtxDone(Head(queue))
-     THEN /\ chan' = [chan EXCEPT ![Head(queue)] = "err"] /\ wpc' = "idle"
+     THEN /\ chan' = [chan EXCEPT ![Head(queue)] = QErr(Head(queue))] /\ wpc' = "idle"
      ELSE /\ wpc' = "checked" /\ UNCHANGED chan
-  /\ UNCHANGED <<pc, permH, permN, canc, fired, exec, done, res, st, rejected, queued, timeouts>>
+  /\ Stay
+  /\ UNCHANGED <<pc, permH, permN, canc, first, fired, exec, done, st, rejected, queued, timeouts>>
 
 WAcquire ==
   /\ wpc = "checked"
   /\ IF CtxDone(wcur)
-     THEN /\ chan' = [chan EXCEPT ![wcur] = "err"] /\ wpc' = "idle"       \* Acquire fails on a done ctx
+     THEN /\ chan' = [chan EXCEPT ![wcur] = QErr(wcur)] /\ wpc' = "idle"       \* Acquire fails on a done ctx
           /\ UNCHANGED <<permH, exec, st>>
      ELSE /\ permH < par.H
           /\ permH' = permH + 1
-          /\ st' = [st EXCEPT ![wcur] = "started"]                          \* (only meaningful with the fix)
+          /\ st' = [st EXCEPT ![wcur] = "started"]                          \* (only meaningful with the hand-off)
           /\ exec' = [exec EXCEPT ![wcur] = @ + 1]
           /\ wpc' = "exec" /\ UNCHANGED chan
-  /\ UNCHANGED <<pc, wcur, permN, queue, canc, fired, done, res, rejected, queued, timeouts>>
+  /\ Stay
+  /\ UNCHANGED <<pc, wcur, permN, queue, canc, first, fired, done, rejected, queued, timeouts>>
 
 WExec ==
   /\ wpc = "exec"
   /\ done' = [done EXCEPT ![wcur] = @ + 1] /\ permH' = permH - 1 /\ wpc' = "send"
-  /\ UNCHANGED <<pc, wcur, permN, queue, canc, fired, exec, res, chan, st, rejected, queued, timeouts>>
+  /\ Stay
+  /\ UNCHANGED <<pc, wcur, permN, queue, canc, first, fired, exec, chan, st, rejected, queued, timeouts>>
 
 WSend ==
   /\ wpc = "send"
   /\ chan' = [chan EXCEPT ![wcur] = "ok"] /\ wpc' = "idle"
-  /\ UNCHANGED <<pc, wcur, permH, permN, queue, canc, fired, exec, done, res, st, rejected, queued, timeouts>>
+  /\ Stay
+  /\ UNCHANGED <<pc, wcur, permH, permN, queue, canc, first, fired, exec, done, st, rejected, queued, timeouts>>
 
 -----------------------------------------------------------------------------
 Step(p) == \/ p \in Callers /\ (CStart(p) \/ CExec(p) \/ CSend(p) \/ CWait(p))
-           \/ p \in Cancels /\ Cancel(p)
+           \/ p \in Events /\ Event(p)
            \/ p = "w" /\ (WDequeue \/ WAcquire \/ WExec \/ WSend)
 
 AllFin == (\A c \in Callers : pc[c] = "fin") /\ wpc = "idle" /\ queue = <<>>
-Next == \/ \E p \in Callers \cup Cancels \cup {"w"} : Step(p) /\ Rec(p) /\ UNCHANGED par
+Next == \/ \E p \in Callers \cup Events \cup {"w"} : Step(p) /\ Rec(p) /\ UNCHANGED par
         \/ AllFin /\ ~GenHist /\ UNCHANGED vars
 Spec == Init /\ [][Next]_vars
 Emit == ~AllFin \/ PrintT(<<"BEH", ToJson([par |-> par, sched |-> hist])>>)
@@ -176,36 +202,46 @@ Bounded == /\ permH >= 0 /\ permH <= par.H /\ permN >= 0 /\ permN <= par.N
            /\ Running({c \in Callers : ~Heavy(c)}) <= par.N
 AtMostOnce == \A c \in Callers : exec[c] <= 1
 \* caller got a result => its request ran exactly once (and that result is its own run's: res = "ok" only then)
-OkMeansRan == \A c \in Callers : res[c] = "ok" => exec[c] = 1 /\ done[c] = 1
+OkMeansRan == \A c \in Callers : res[c] = "ok" => exec[c] = 1 /\ done[c] = 1 /\ why[c] = "run"
 NoForeignResult == \A c \in Callers : res[c] \in {"none", "ok", "err"}
 \* caller got an error => its request does not run, now or later (checked in every later state)
 ErrMeansNotRun == \A c \in Callers : res[c] = "err" => exec[c] = 0
+\* ... except for the open finding F10, and only for it: Acquire returned the error of the done queue ctx
+\* after the execution of the request had already started
+F10Class(c) == /\ res[c] = "err" /\ exret[c] >= 1 /\ CtxDone(c)
+               /\ why[c] \in {"canceled", "deadline_exceeded", "queue_timeout"}
+ErrMeansNotRunModF10 == \A c \in Callers : (res[c] = "err" /\ exec[c] > 0) => F10Class(c)
 \* once the load has stopped every permit and queue slot is free
 Released == AllFin => permH = 0 /\ permN = 0
 Counters == /\ rejected + queued <= Cardinality(Callers) /\ timeouts <= queued
-            /\ rejected = Cardinality({c \in Callers : pc[c] = "fin" /\ res[c] = "err" /\ st[c] = "none"})
+            /\ rejected = Cardinality({c \in Callers : why[c] = "rejected"})
+            /\ timeouts = Cardinality({c \in Callers : why[c] = "queue_timeout"})
 
 -----------------------------------------------------------------------------
-(* Scenarios: [H, N, Q, cal : caller -> [kind, to], can : cancel event -> caller] *)
+(* Scenarios: [H, N, Q, cal : caller -> [kind, to], ev : event -> [k, c]] *)
 C(kind, to) == [kind |-> kind, to |-> to]
+X(c) == [k |-> "cancel", c |-> c]
+D(c) == [k |-> "deadline", c |-> c]
 NoProc == [x \in {} |-> 0]
-L(H, N, Q, cal, can) == [H |-> H, N |-> N, Q |-> Q, cal |-> cal, can |-> can]
-HK == {"heavy_cu", "heavy_debug", "heavy_batch"}
+L(H, N, Q, cal, ev) == [H |-> H, N |-> N, Q |-> Q, cal |-> cal, ev |-> ev]
+TO == {"never", "expired"}
 
-\* the DESIGN scenario: heavy limit 1, queue 1, 3 heavy + 2 normal callers, cancel events
-ScnMain == {L(1, 1, 1, [c1 |-> C("heavy_cu", FALSE), c2 |-> C(k2, t2), c3 |-> C("heavy_batch", FALSE),
-                        c4 |-> C("normal", FALSE), c5 |-> C("normal", FALSE)], can) :
-              k2 \in {"heavy_debug"}, t2 \in BOOLEAN, can \in {[x2 |-> "c2"], [x2 |-> "c2", x3 |-> "c3"]}}
-ScnTwo == {L(2, 1, 2, [c1 |-> C("heavy_cu", FALSE), c2 |-> C("heavy_cu", t2), c3 |-> C("heavy_debug", FALSE), c4 |-> C("heavy_batch", t4)], can) :
-              t2 \in BOOLEAN, t4 \in BOOLEAN, can \in {NoProc, [x3 |-> "c3"], [x2 |-> "c2", x4 |-> "c4"]}}
-ScnNoQueue == {L(1, 2, 0, [c1 |-> C("heavy_cu", FALSE), c2 |-> C("heavy_debug", FALSE), c3 |-> C("normal", FALSE),
-                           c4 |-> C("normal", FALSE), c5 |-> C("normal", FALSE)], NoProc)}
-ScnSmall == {L(1, 1, 1, [c1 |-> C("heavy_cu", FALSE), c2 |-> C("heavy_debug", t2), c3 |-> C(k3, FALSE)], can) :
-               t2 \in BOOLEAN, k3 \in {"heavy_batch", "normal"}, can \in {NoProc, [x2 |-> "c2"], [x2 |-> "c2", x3 |-> "c3"]}}
+\* the DESIGN scenario: heavy limit 1, queue 1, 3 heavy + 2 normal callers, cancel / deadline events
+ScnMain == {L(1, 1, 1, [c1 |-> C("heavy_cu", "never"), c2 |-> C("heavy_debug", t2), c3 |-> C("heavy_batch", "never"),
+                        c4 |-> C("normal", "never"), c5 |-> C("normal", "never")], ev) :
+              t2 \in {"never", "expired", "late"}, ev \in {[x2 |-> X("c2")], [x2 |-> X("c2"), x3 |-> X("c3")], [d2 |-> D("c2"), x3 |-> X("c3")]}}
+ScnTwo == {L(2, 1, 2, [c1 |-> C("heavy_cu", "never"), c2 |-> C("heavy_cu", t2), c3 |-> C("heavy_debug", "late"), c4 |-> C("heavy_batch", t4)], ev) :
+              t2 \in TO, t4 \in TO, ev \in {NoProc, [x3 |-> X("c3")], [d3 |-> D("c3")], [x2 |-> X("c2"), x4 |-> X("c4")]}}
+ScnNoQueue == {L(1, 2, 0, [c1 |-> C("heavy_cu", "never"), c2 |-> C("heavy_debug", "never"), c3 |-> C("normal", "never"),
+                           c4 |-> C("normal", "never"), c5 |-> C("normal", "never")], NoProc)}
+ScnSmall == {L(1, 1, 1, [c1 |-> C("heavy_cu", "never"), c2 |-> C("heavy_debug", t2), c3 |-> C(k3, "never")], ev) :
+               t2 \in {"never", "expired", "late"}, k3 \in {"heavy_batch", "normal"},
+               ev \in {NoProc, [x2 |-> X("c2")], [d2 |-> D("c2")], [x2 |-> X("c2"), d2 |-> D("c2")], [x2 |-> X("c2"), x3 |-> X("c3")]}}
 ScnQuick == ScnSmall \cup ScnNoQueue
 ScnAll == ScnMain \cup ScnTwo \cup ScnNoQueue \cup ScnSmall
 \* scenarios whose schedules are all enumerated (thorough tier)
-ScnEnum == {L(1, 1, 1, [c1 |-> C("heavy_cu", FALSE), c2 |-> C("heavy_debug", FALSE)], [x2 |-> "c2"]),
-            L(1, 1, 1, [c1 |-> C("heavy_cu", FALSE), c2 |-> C("heavy_debug", TRUE)], NoProc),
-            L(1, 1, 1, [c1 |-> C("heavy_cu", FALSE), c2 |-> C("heavy_debug", FALSE), c3 |-> C("heavy_batch", FALSE)], NoProc)}
+ScnEnum == {L(1, 1, 1, [c1 |-> C("heavy_cu", "never"), c2 |-> C("heavy_debug", "never")], [x2 |-> X("c2")]),
+            L(1, 1, 1, [c1 |-> C("heavy_cu", "never"), c2 |-> C("heavy_debug", "late")], [d2 |-> D("c2")]),
+            L(1, 1, 1, [c1 |-> C("heavy_cu", "never"), c2 |-> C("heavy_debug", "expired")], NoProc),
+            L(1, 1, 1, [c1 |-> C("heavy_cu", "never"), c2 |-> C("heavy_debug", "never"), c3 |-> C("heavy_batch", "never")], NoProc)}
 =============================================================================
